@@ -3,6 +3,7 @@ CFG = {
     "gens": ["C07", "C06"],
     "gen_rules": {"C06": ["glyph-paths-distinct", "layer-paths-distinct", "one-default-first"]},
     "audit": "Norad/Audit/C07.lean",
+    "extract": "filename_consts",
     "rule": ("norad::user_name_to_file_name through the public API with both norad affix pairs ('' + '.glif', 'glyphs.' + ''), a few foreign pairs, "
              "and closures that are stateful (accept the k-th call, k in 0..103) or taken-sets built from earlier results (0,1,2,..,98,99,100 clashes). "
              "Exhaustive part: every name of length <= 4 over {c o n m 1 . space N _ / E-acute sparkling-heart} x 2 affix pairs x {accepted at once, one clash}. "
